@@ -16,11 +16,15 @@
       without table exists (possible after a creation that panicked between createArchetype and
       createTable through misuse outside the documented preconditions); this is recorded as an
       observation in DESIGN.md.
-    Not covered by theorems: relation archetypes (tables freed, lookups dropped) and the twin-world
+    - RELATION WORLDS (Rel2Maint.v), for every unlocked state satisfying St2 in which every
+      relation-free archetype has its table: Reset succeeds and yields a world satisfying St2 with no
+      live entity, every table empty, every relation table freed, all relation lookups empty, the
+      filter cache empty, the pool reset, registry and capacities unchanged ([C16_reset_relation_worlds]).
+    Not covered by theorems: (relation-free statement only:) relation archetypes (tables freed, lookups dropped) and the twin-world
     comparison against a fresh world — `reset` correspondence stream: after Reset the complete
     internal dump must equal the model's, and histories continue on the reset world. *)
 From Ark Require Import Model.Base Model.Mask Model.Pool Model.Util Model.World Model.Run.
-From Ark Require Import Proofs.WF Proofs.StorageA Proofs.ResetShrinkProofs Proofs.ObsSpec Properties.Common.
+From Ark Require Import Proofs.WF Proofs.StorageA Proofs.ResetShrinkProofs Proofs.ObsSpec Proofs.Rel2Defs Proofs.Rel2Maint Properties.Common.
 From Ark Require Proofs.ObsProofs.
 
 Theorem C16_reset_empty : forall s, St s -> is_locked s = false ->
@@ -67,6 +71,20 @@ Example C16_reset_example :
   end = (0, 0, 0, [], [], [0; 0; 0], [None]).
 Proof. vm_compute. reflexivity. Qed.
 
-Definition C16_all := (C16_reset_empty, C16_reset_locked_rejected, C16_reset_needs_every_archetype_to_have_a_table,
+Theorem C16_reset_relation_worlds : forall s, St2 s -> is_locked s = false ->
+  (forall aid a, nth_error (w_archs s) aid = Some a -> a_numrel a = 0 -> a_tables a <> []) ->
+  exists s', w_reset s = Ok tt s' /\ St2 s' /\ r2d_KeysLive s' /\ (forall e, live s' e = false) /\
+    pe (w_pool s') = [(0, max_u32); (1, max_u32)] /\ pavail (w_pool s') = 0 /\
+    w_centries s' = [] /\ is_locked s' = false /\ w_ototal s' = 0 /\ Forall (fun b => b = false) (w_res s') /\
+    w_reg s' = w_reg s /\ w_cfg s' = w_cfg s /\
+    length (w_archs s') = length (w_archs s) /\ length (w_tables s') = length (w_tables s) /\
+    w_istarget s' = firstn 2 (w_istarget s) /\
+    (forall tid t, nth_error (w_tables s') tid = Some t -> t_len t = 0 /\ (t_rels t <> [] -> t_free t = true)) /\
+    (forall aid a, nth_error (w_archs s') aid = Some a ->
+       a_tgttabs a = [] /\ Forall (fun m : list (nat * list nat) => m = []) (a_reltabs a) /\ (0 < a_numrel a -> a_tables a = [])).
+Proof. exact D_reset_spec. Qed.
+Definition C16_relation_example := r2d_ex_reset_by_theorem.
+
+Definition C16_all := (C16_reset_relation_worlds, C16_relation_example, C16_reset_empty, C16_reset_locked_rejected, C16_reset_needs_every_archetype_to_have_a_table,
   C16_reset_clears_observers).
 Print Assumptions C16_all.
